@@ -64,7 +64,12 @@ def one_case(ctx, ref, pred, r, ps, metric, src, before=None, layouts=None):
     ctx.count(f"metric.{metric}")
     ctx.count("sel" if r is not None else "nosel")
     ctx.count("nontrivial" if nontriv else "trivial")
+    ps_given = list(ps) if isinstance(ps, list) else ps
     got = call_impl(metric, ref, pred, r, ps)
+    if isinstance(ps, list) and ps != ps_given:
+        ctx.violation(f"the metric call changed the caller's list of prediction labels from {ps_given} to {ps} (the next call with that list scores other voxels)", inp,
+                      key={"metric": metric, "kind": "caller-list"})
+        ps[:] = ps_given
     # model
     req = {"op": "metric", "m": metric, "shape": list(ref.shape), "ref": inp["ref"], "pred": inp["pred"]}
     if r is not None:
@@ -380,6 +385,12 @@ def scale_cases(ctx):
     recs = scale_recipes()
     for k, (rec, r, ps) in enumerate(recs if not ctx.quick else recs[:3] + recs[-1:]):
         scale_case(ctx, rec, r, ps, f"scale{k}")
+    # volumes just beyond 2^20 voxels whose first axis is not a multiple of any power-of-two slab, with foreground in the last slices
+    for shape in ([300, 64, 64], [155, 96, 96], [1100, 1000]):
+        n = int(np.prod(shape))
+        rec = {"kind": "runs", "shape": shape, "dtype": "uint8", "ref_runs": [[n - 70000, 65000, 1], [5, 4000, 2]], "pred_runs": [[n - 60000, 59990, 1], [5, 3000, 2]]}
+        ctx.count("volume_beyond_2^20_with_foreground_in_the_tail")
+        scale_case(ctx, rec, 1, [1], f"scale.tail.{'x'.join(map(str, shape))}")
 
 
 def run(ctx):
